@@ -92,6 +92,8 @@ class Recorder:
             self._mids[i] = len(self._mids) + 1
             self._keep.append(msg)
         obj = getattr(msg.obj, "name", "") if msg.obj is not None else ""
+        if msg.command == "declare_stream" and msg.args:
+            obj = getattr(msg.args[0], "name", "")          # Msg('declare_stream', None, *objs, name=...): (one object here)
         run = "" if msg.run is None else str(msg.run)
         a = msg_arg(msg)
         if msg.command in GROUP_CMDS and a != "":
@@ -159,8 +161,12 @@ class Recorder:
                 self.ev("nev", stream, "", "", n, ro)
         elif name == "event_page":
             stream, ro = self.desc.get(doc["descriptor"], ("?", 0))
-            for s in doc["seq_num"]:
+            import hashlib
+            for i, s in enumerate(doc["seq_num"]):
                 self.ev("doc", "event", stream, "", s, ro, flag)
+                items = sorted((k, repr(v[i])) for k, v in doc.get("data", {}).items())
+                dig = hashlib.sha1(repr(items).encode()).hexdigest()[:8]
+                self.ev("dat", stream, dig, self.devmask(doc.get("data", {})), s, ro)
         elif name == "stream_resource":
             ro = self.run_ord.get(doc.get("run_start"), 0)
             self.ev("doc", "stream_resource", doc.get("data_key", ""), "", 0, ro)
